@@ -32,6 +32,7 @@ struct Th {
   const void* wait_addr = nullptr;
   uint64_t deadline = UINT64_MAX;
   bool timed_out = false;
+  bool spurious = false;
   uint64_t wait_seq = 0;
   int join_target = -1;
   int64_t prio = 0;
@@ -153,6 +154,18 @@ Th* pick(Th* cur, bool cur_yields) {
   if (G.res.steps > G.opt.max_steps) stuck(false);
   G.vtime += G.opt.step_ns;
   wake_due();
+  if (G.opt.spurious_futex && (rnd() & 15) == 0) {
+    // futex_wait may return without a wake (EINTR on a signal, or a plain spurious 0)
+    std::vector<Th*> w;
+    for (auto t : G.threads)
+      if (t->st == BLOCKED_FUTEX) w.push_back(t);
+    if (!w.empty()) {
+      Th* t = w[rnd() % w.size()];
+      t->st = RUNNABLE;
+      t->spurious = true;
+      t->deadline = UINT64_MAX;
+    }
+  }
   std::vector<Th*> r;
   if (cur && cur->st == RUNNABLE && !cur_yields) r.push_back(cur);
   for (auto t : G.threads)
@@ -339,6 +352,7 @@ int futex_wait(uint32_t* addr, uint32_t val, const struct timespec* ts) {
   self->st = BLOCKED_FUTEX;
   self->wait_addr = addr;
   self->timed_out = false;
+  self->spurious = false;
   self->wait_seq = ++G.seq;
   self->deadline = UINT64_MAX;
   if (ts) {
@@ -354,6 +368,13 @@ int futex_wait(uint32_t* addr, uint32_t val, const struct timespec* ts) {
   if (self->timed_out) {
     errno = ETIMEDOUT;
     return -1;
+  }
+  if (self->spurious) {
+    self->spurious = false;
+    if (G.rng & 1) {
+      errno = EINTR;
+      return -1;
+    }
   }
   return 0;
 }
